@@ -515,6 +515,27 @@ func prepareCopy(_ context.Context, dst Target, dstRef string, proxy *cas.Proxy,
 		return nil
 	}
 
+	onMounted := opts.OnMounted
+	opts.OnMounted = func(ctx context.Context, desc ocispec.Descriptor) error {
+		if onMounted != nil {
+			if err := onMounted(ctx, desc); err != nil {
+				return err
+			}
+		}
+		if !content.Equal(desc, root) {
+			return nil
+		}
+
+		// enforce tagging when the mounted node is root
+		if refPusher, ok := dst.(registry.ReferencePusher); ok {
+			return copyCachedNodeWithReference(ctx, proxy, refPusher, desc, dstRef)
+		}
+		if err := dst.Tag(ctx, root, dstRef); err != nil {
+			return newCopyError("Tag", CopyErrorOriginDestination, err)
+		}
+		return nil
+	}
+
 	return nil
 }
 
